@@ -1,0 +1,16 @@
+//go:build verif
+
+package core
+
+import "time"
+
+// VerifPurgeUploaderInterval is a PurgeOption that sets the interval of the ticker driving the
+// background upload of index chunks (otherwise fixed to 5 minutes), so that chunk uploads
+// interleave with the metadata scan in a short verification run.
+func VerifPurgeUploaderInterval(d time.Duration) PurgeOption {
+	return func(o *purgeOptions) {
+		if d > 0 {
+			o.uploaderInterval = d
+		}
+	}
+}
